@@ -184,7 +184,7 @@ Section More.
     change (reset (S f) (PSequence (AL col) (AV (VInt 1)) 0 0)) with
       (obind (reset_field (reset f) (AL col)) (fun s' =>
        obind (reset_field (reset f) (AV (VInt 1))) (fun r' => Yield (PSequence s' r' 0 0)))).
-    cbn [reset_field]. rewrite (mapM_all (reset_item (reset f)) (fun a => a)).
+    cbn [reset_field reset_value]. rewrite (mapM_all (reset_value (reset f)) (fun a => a)).
     - rewrite map_id. reflexivity.
     - intros a Ha. destruct (H a Ha) as [v ->]. reflexivity.
   Qed.
